@@ -38,10 +38,11 @@ VARIABLES
   fin,      \* current block is final
   ll, dl,   \* code lengths of the current block (symbol s at index s+1)
   lcw, dcw, \* their canonical code words
+  pdl, pdcw, \* distance code of the previous Huffman block (for the stale-table corruption)
   nblk, ntok,
   expect, why,    \* "done" | "rej", reason
   feats     \* set of construct names used (coverage / selection)
-gvars == <<ph, bits, plain, zl, fin, ll, dl, lcw, dcw, nblk, ntok, expect, why, feats>>
+gvars == <<ph, bits, plain, zl, fin, ll, dl, lcw, dcw, pdl, pdcw, nblk, ntok, expect, why, feats>>
 
 -----------------------------------------------------------------------------
 LsbBits(v, n) == [i \in 1..n |-> (v \div Pow2(i-1)) % 2]
@@ -163,7 +164,7 @@ FixedDistCW == AssignCodes(FixedDistLens32)
 
 GInit ==
   /\ ph = "start" /\ bits = <<>> /\ plain = <<>> /\ zl \in BOOLEAN /\ fin = FALSE
-  /\ ll = <<>> /\ dl = <<>> /\ lcw = <<>> /\ dcw = <<>> /\ nblk = 0 /\ ntok = 0 /\ expect = "done" /\ why = "" /\ feats = {}
+  /\ ll = <<>> /\ dl = <<>> /\ lcw = <<>> /\ dcw = <<>> /\ pdl = <<>> /\ pdcw = <<>> /\ nblk = 0 /\ ntok = 0 /\ expect = "done" /\ why = "" /\ feats = {}
 
 Feat(f) == feats' = feats \cup {f}
 \* In -simulate mode TLC would build every successor before picking one; drawing the
@@ -183,7 +184,7 @@ Start ==
               IN bits' = ByteBits(cmf) \o ByteBits(flg)
        ELSE bits' = <<>>
   /\ ph' = "block"
-  /\ UNCHANGED <<plain, zl, fin, ll, dl, lcw, dcw, nblk, ntok, expect, why, feats>>
+  /\ UNCHANGED <<plain, zl, fin, ll, dl, lcw, dcw, pdl, pdcw, nblk, ntok, expect, why, feats>>
 
 HdrBits(final, type) == <<IF final THEN 1 ELSE 0>> \o LsbBits(type, 2)
 
@@ -200,12 +201,13 @@ BeginStored(final, data) ==
   /\ plain' = plain \o data
   /\ nblk' = nblk + 1 /\ fin' = final /\ ph' = AfterBlock(final)
   /\ Feat(IF data = <<>> THEN "stored_empty" ELSE "stored_align_" \o ToString(Len(bits) % 8))
-  /\ UNCHANGED <<zl, ll, dl, lcw, dcw, ntok, expect, why>>
+  /\ UNCHANGED <<zl, ll, dl, lcw, dcw, pdl, pdcw, ntok, expect, why>>
 
 BeginFixed(final) ==
   /\ CanStartBlock
   /\ bits' = bits \o HdrBits(final, 1)
   /\ ll' = FixedLitLens /\ dl' = FixedDistLens32 /\ lcw' = FixedLitCW /\ dcw' = FixedDistCW
+  /\ pdl' = dl /\ pdcw' = dcw
   /\ nblk' = nblk + 1 /\ fin' = final /\ ntok' = 0 /\ ph' = "tokens"
   /\ Feat("fixed")
   /\ UNCHANGED <<plain, zl, expect, why>>
@@ -218,6 +220,7 @@ BeginDynamic(final, lp, dp, bighl, bighd, rle, clmode) ==
          d1 == MkLens(hdist, dp.syms, dp.shape)
      IN /\ bits' = bits \o HdrBits(final, 2) \o DynHeaderBits(hlit, hdist, l1 \o d1, rle, clmode)
         /\ ll' = l1 /\ dl' = d1 /\ lcw' = AssignCodes(l1) /\ dcw' = AssignCodes(d1)
+        /\ pdl' = dl /\ pdcw' = dcw
   /\ nblk' = nblk + 1 /\ fin' = final /\ ntok' = 0 /\ ph' = "tokens"
   /\ feats' = feats \cup {"dyn_lit_" \o lp.shape \o "_" \o ToString(Len(lp.syms)),
                           "dyn_dist_" \o dp.shape \o "_" \o ToString(Len(dp.syms)),
@@ -232,7 +235,7 @@ EmitLit(b) ==
   /\ bits' = bits \o SymBits(ll, lcw, b)
   /\ plain' = Append(plain, b)
   /\ ntok' = ntok + 1
-  /\ UNCHANGED <<ph, zl, fin, ll, dl, lcw, dcw, nblk, expect, why, feats>>
+  /\ UNCHANGED <<ph, zl, fin, ll, dl, lcw, dcw, pdl, pdcw, nblk, expect, why, feats>>
 
 RECURSIVE CopyOut(_, _, _)
 CopyOut(o, dist, k) == IF k = 0 THEN o ELSE CopyOut(Append(o, o[Len(o) + 1 - dist]), dist, k - 1)
@@ -251,7 +254,7 @@ EmitMatch(ls, le, ds, de) ==
                           \cup (IF dist = 32768 THEN {"dist_32768"} ELSE {})
                           \cup (IF dist < len THEN {"overlap"} ELSE {})
   /\ ntok' = ntok + 1
-  /\ UNCHANGED <<ph, zl, fin, ll, dl, lcw, dcw, nblk, expect, why>>
+  /\ UNCHANGED <<ph, zl, fin, ll, dl, lcw, dcw, pdl, pdcw, nblk, expect, why>>
 
 \* k maximal-length matches at distance 1 in one step (builds 32 KiB of history cheaply)
 EmitRun(k) ==
@@ -262,14 +265,14 @@ EmitRun(k) ==
      IN /\ bits' = bits \o rb(k)
         /\ plain' = plain \o [i \in 1..(258 * k) |-> last]
   /\ ntok' = ntok + 1 /\ Feat("run")
-  /\ UNCHANGED <<ph, zl, fin, ll, dl, lcw, dcw, nblk, expect, why>>
+  /\ UNCHANGED <<ph, zl, fin, ll, dl, lcw, dcw, pdl, pdcw, nblk, expect, why>>
 
 GenEndBlock ==
   /\ ph = "tokens" /\ HasSym(ll, 256) /\ (Rarely(5) \/ ntok >= MaxTokens)
   /\ bits' = bits \o SymBits(ll, lcw, 256)
   /\ ph' = AfterBlock(fin)
   /\ feats' = feats \cup (IF ntok = 0 THEN {"empty_huffman_block"} ELSE {})
-  /\ UNCHANGED <<plain, zl, fin, ll, dl, lcw, dcw, nblk, ntok, expect, why>>
+  /\ UNCHANGED <<plain, zl, fin, ll, dl, lcw, dcw, pdl, pdcw, nblk, ntok, expect, why>>
 
 AdlerOf(p) == AdlerSeq(AdlerInit, p)
 
@@ -278,7 +281,7 @@ Finish ==
   /\ LET b1 == bits \o Zeros(PadLen(Len(bits)))
      IN bits' = IF zl THEN b1 \o CatBytes(AdlerBytes(AdlerOf(plain))) ELSE b1
   /\ ph' = "done"
-  /\ UNCHANGED <<plain, zl, fin, ll, dl, lcw, dcw, nblk, ntok, expect, why, feats>>
+  /\ UNCHANGED <<plain, zl, fin, ll, dl, lcw, dcw, pdl, pdcw, nblk, ntok, expect, why, feats>>
 
 -----------------------------------------------------------------------------
 (* One action per way a stream can violate the format.  Each ends the      *)
@@ -287,11 +290,11 @@ Finish ==
 
 Junk == CatBytes(<<85, 170, 1, 254, 0, 255, 85, 170>>)
 Bad(newbits, reason) ==
-  /\ AllowCorrupt /\ Rarely(12)
+  /\ AllowCorrupt /\ Rarely(12) /\ expect = "done"
   /\ bits' = (newbits \o Zeros(PadLen(Len(newbits)))) \o Junk
   /\ expect' = "rej" /\ why' = reason /\ ph' = "done"
   /\ feats' = feats \cup {"corrupt_" \o reason}
-  /\ UNCHANGED <<plain, zl, fin, ll, dl, lcw, dcw, nblk, ntok>>
+  /\ UNCHANGED <<plain, zl, fin, ll, dl, lcw, dcw, pdl, pdcw, nblk, ntok>>
 
 Corrupt_ZlibHeader ==
   /\ ph = "start" /\ zl
@@ -364,15 +367,31 @@ Corrupt_UnusedCode ==
   /\ ph = "tokens" /\ Cardinality({i \in 1..Len(ll) : ll[i] > 0}) = 1
   /\ Bad(bits \o <<1, 1, 1, 1, 1, 1, 1, 1, 1, 1, 1, 1, 1, 1, 1, 1>>, "lit_badcode")
 
+\* a block that declares no distance code at all but uses a length symbol; the bits that
+\* follow are a perfectly good distance code word of the PREVIOUS block's distance code, and
+\* the stream then carries on to a proper end - only the undeclared distance code is wrong
+Corrupt_StaleDistCode ==
+  /\ AllowCorrupt /\ Rarely(2)
+  /\ ph = "tokens" /\ expect = "done" /\ HasSym(ll, 257) /\ HasSym(ll, 256)
+  /\ \A i \in 1..Len(dl) : dl[i] = 0
+  /\ Len(plain) >= 1
+  /\ \E ds \in {0} : /\ HasSym(pdl, ds)
+                       /\ bits' = bits \o SymBits(ll, lcw, 257) \o SymBits(pdl, pdcw, ds) \o SymBits(ll, lcw, 256)
+  /\ expect' = "rej" /\ why' = "dist_badcode"
+  /\ ph' = AfterBlock(fin)
+  /\ feats' = feats \cup {"corrupt_stale_dist_code"}
+  /\ plain' = CopyOut(plain, 1, 3)
+  /\ UNCHANGED <<zl, fin, ll, dl, lcw, dcw, pdl, pdcw, nblk, ntok>>
+
 Corrupt_Trailer ==
   /\ ph = "finish" /\ zl
   /\ LET b1 == bits \o Zeros(PadLen(Len(bits)))
          ad == AdlerBytes(AdlerOf(plain))
-     IN /\ AllowCorrupt /\ Rarely(6)
+     IN /\ AllowCorrupt /\ Rarely(6) /\ expect = "done"
         /\ bits' = b1 \o CatBytes([ad EXCEPT ![4] = (@ + 1) % 256])
         /\ expect' = "rej" /\ why' = "adler" /\ ph' = "done"
         /\ Feat("corrupt_adler")
-        /\ UNCHANGED <<plain, zl, fin, ll, dl, lcw, dcw, nblk, ntok>>
+        /\ UNCHANGED <<plain, zl, fin, ll, dl, lcw, dcw, pdl, pdcw, nblk, ntok>>
 
 -----------------------------------------------------------------------------
 StoredChoices == {<<>>, <<7>>} \cup {<<a, b, a>> : a, b \in Lits}
@@ -394,7 +413,7 @@ GNext ==
   \/ GenEndBlock
   \/ Finish
   \/ Corrupt_ZlibHeader \/ Corrupt_BlockType3 \/ Corrupt_StoredLen \/ Corrupt_TableSizes \/ Corrupt_Lens
-  \/ Corrupt_Symbol \/ Corrupt_DistBeforeStart \/ Corrupt_UnusedCode \/ Corrupt_Trailer
+  \/ Corrupt_Symbol \/ Corrupt_DistBeforeStart \/ Corrupt_UnusedCode \/ Corrupt_Trailer \/ Corrupt_StaleDistCode
 
 \* the stream as bytes
 RECURSIVE PackBytes(_, _)
